@@ -421,26 +421,41 @@ Definition step (c : cfg) (s : state) (o : op) : state :=
 Definition run (c : cfg) (ops : list op) : state := fold_left (step c) ops state0.
 
 (* ---------------- Query ---------------- *)
-(* what the head querier can return for series i over [mint,maxt] before range filtering:
-   in-order samples from max(Head.MinTime, mint) on, all out-of-order samples; head tombstones
-   apply to both *)
+(* head_cands h floor i: the in-order samples from [floor] on and all out-of-order samples of
+   series i that the head tombstones do not cover *)
 Definition head_cands (h : head) (mint : Z) (i : sid) : list sample :=
   let m := h_series h i in
   filter (fun x => (Z.max (h_minT h) mint <=? st x) && negb (covered (h_tomb h i) (st x))) (io_samples m)
   ++ filter (fun x => negb (covered (h_tomb h i) (st x))) (ms_ooo m).
 
+(* DB.Querier: the head is queried when maxt >= Head.MinTime() or the head's out-of-order time
+   range overlaps the query (MinOOOTime/MaxOOOTime are not modelled: approximated per series by
+   "the series has out-of-order samples in the head"); the head querier is a block querier over RangeHead(head, mint, maxt) with the
+   query's OWN mint: an in-order sample below Head.MinTime() that still sits in a chunk
+   straddling the last truncation point is returned (it normally duplicates a block sample). *)
+Definition head_gate (h : head) (maxt : Z) (i : sid) : bool :=
+  (h_minT h <=? maxt) || negb (is_nil (ms_ooo (h_series h i))).
+
+Definition head_cands_q (h : head) (maxt : Z) (i : sid) : list sample :=
+  if head_gate h maxt i then
+    let m := h_series h i in
+    filter (fun x => negb (covered (h_tomb h i) (st x))) (io_samples m)
+    ++ filter (fun x => negb (covered (h_tomb h i) (st x))) (ms_ooo m)
+  else [].
+
 Definition block_cands (b : block) (i : sid) : list sample :=
   filter (fun x => negb (covered (b_tomb b i) (st x))) (b_data b i).
 
 Definition cands (s : state) (mint maxt : Z) (i : sid) : list sample :=
-  head_cands (s_head s) mint i
+  head_cands_q (s_head s) maxt i
   ++ flat_map (fun b => if b_overlaps b mint maxt then block_cands b i else []) (s_blocks s).
 
 Definition query (s : state) (mint maxt : Z) (sel : list sid) : answer :=
   query_of (cands s mint maxt) mint maxt sel.
 
 (* ---------------- abstraction ---------------- *)
-(* the live samples of series i: everything some querier can see *)
+(* the live samples of series i: the in-order head samples from Head.MinTime() on, the
+   out-of-order head samples, the block samples, minus what the tombstones cover *)
 Definition abs (s : state) : sstate :=
   fun i => head_cands (s_head s) (h_minT (s_head s)) i ++ flat_map (fun b => block_cands b i) (s_blocks s).
 
